@@ -24,6 +24,25 @@ void mt_log(const char *fmt, ...)
 	va_end(ap);
 }
 
+#include <dirent.h>
+extern size_t __sanitizer_get_current_allocated_bytes(void);
+extern int __lsan_do_recoverable_leak_check(void);
+static void mt_ledger(const char *tag)
+{
+	DIR *d = opendir("/proc/self/fd");
+	struct dirent *de;
+	int n = 0;
+	if (d != NULL) {
+		while ((de = readdir(d)) != NULL)
+			if (de->d_name[0] != '.')
+				n++;
+		closedir(d);
+		n--;
+	}
+	printf("T%d %s fds=%d heap=%zu leaks=%d\n", mt_me(), tag, n, __sanitizer_get_current_allocated_bytes(),
+	       !strcmp(tag, "LEDGER-END") ? __lsan_do_recoverable_leak_check() : 0);
+}
+
 void mt_finish(const char *why)
 {
 	if (why != NULL)
@@ -156,6 +175,7 @@ static void quiescent(void)
 		for (i = 0; i < nexts; i++)
 			if (exts[i]->at_end != NULL)
 				exts[i]->at_end();
+		mt_ledger("LEDGER-END");
 		printf("T%d ALLDONE\n", me_);
 		mt_finish("FIN");
 	}
@@ -692,6 +712,8 @@ static int core_action(char *op, int guard, char *a1, char *a2)
 		iv_invalidate_now();
 	} else if (!strcmp(op, "yield")) {
 		mt_yield();
+	} else if (!strcmp(op, "ledger")) {
+		mt_ledger("LEDGER");
 	} else if (!strcmp(op, "nop")) {
 	} else {
 		return 0;
@@ -1153,6 +1175,7 @@ int main(int argc, char **argv)
 				pthread_cond_wait(&sched_cv[0], &sched_mu);
 		}
 	}
+	mt_ledger("LEDGER-END");
 	for (i = 0; i < nexts; i++)
 		if (exts[i]->at_end != NULL)
 			exts[i]->at_end();
